@@ -32,11 +32,11 @@ import (
 
 type callerPar struct {
 	Kind string `json:"kind"`
-	To   string `json:"to"` // never | expired | late
+	To   string `json:"to"` // never | expired
 }
 
 type evPar struct {
-	K string `json:"k"` // cancel | deadline
+	K string `json:"k"` // cancel | pdeadline
 	C string `json:"c"`
 }
 
@@ -54,7 +54,7 @@ type behaviour struct {
 }
 
 type rec struct {
-	Ev       string            `json:"ev"` // reset | step | skip | blocked | discard
+	Ev       string            `json:"ev"` // reset | step | skip | blocked
 	Beh      int               `json:"beh"`
 	P        string            `json:"p"`
 	Par      *params           `json:"par,omitempty"`
@@ -78,14 +78,65 @@ type rec struct {
 	InN      uint64            `json:"inN"`
 }
 
-const (
-	stepWait = 3 * time.Second
-	// real queue timeout of "late" callers; a deadline event sleeps until it has certainly fired, and a
-	// behaviour in which it could fire before its event is discarded (never validated, never counted)
-	lateT      = 300 * time.Millisecond
-	lateGuard  = 60 * time.Millisecond
-	lateMargin = 80 * time.Millisecond
-)
+const stepWait = 3 * time.Second
+
+// manualCtx is the caller's context: the scheduler fires it (cancellation or deadline) as an environment step.
+// It implements the context package's AfterFunc hook, so contexts derived from it (the limiter's queueCtx) are
+// cancelled synchronously inside fire() - no timer and no goroutine is involved, the replay stays deterministic.
+type manualCtx struct {
+	mu   sync.Mutex
+	done chan struct{}
+	err  error
+	fns  map[int]func()
+	next int
+}
+
+func newManualCtx() *manualCtx { return &manualCtx{done: make(chan struct{}), fns: map[int]func(){}} }
+
+func (m *manualCtx) Deadline() (time.Time, bool) { return time.Time{}, false }
+func (m *manualCtx) Done() <-chan struct{}       { return m.done }
+func (m *manualCtx) Value(key any) any           { return nil }
+func (m *manualCtx) Err() error {
+	m.mu.Lock()
+	defer m.mu.Unlock()
+	return m.err
+}
+
+func (m *manualCtx) AfterFunc(f func()) func() bool {
+	m.mu.Lock()
+	if m.err != nil {
+		m.mu.Unlock()
+		f()
+		return func() bool { return false }
+	}
+	id := m.next
+	m.next++
+	m.fns[id] = f
+	m.mu.Unlock()
+	return func() bool {
+		m.mu.Lock()
+		defer m.mu.Unlock()
+		_, ok := m.fns[id]
+		delete(m.fns, id)
+		return ok
+	}
+}
+
+func (m *manualCtx) fire(err error) {
+	m.mu.Lock()
+	if m.err != nil {
+		m.mu.Unlock()
+		return
+	}
+	m.err = err
+	close(m.done)
+	fns := m.fns
+	m.fns = map[int]func(){}
+	m.mu.Unlock()
+	for _, f := range fns {
+		f()
+	}
+}
 
 var hookLabel = map[string]string{
 	"enq_before_send": "presend",
@@ -160,7 +211,7 @@ type world struct {
 	rl      *rpcprovider.ResourceLimiter
 	procs   map[string]*proc
 	callers []string
-	cancel  map[string]context.CancelFunc
+	cctx    map[string]*manualCtx
 	canc    map[string]bool
 	exec    map[string]int
 	done    map[string]int
@@ -168,7 +219,6 @@ type world struct {
 	why     map[string]string
 	exret   map[string]int
 	first   map[string]string
-	t0, t1  map[string]time.Time
 	wcur    string
 	mu      sync.Mutex
 }
@@ -194,8 +244,6 @@ func (w *world) runCaller(p *proc, name string, cp callerPar, ctx context.Contex
 	switch cp.To {
 	case "expired":
 		w.rl.VerifSetHeavyQueueTimeout(-time.Second) // queue deadline already expired
-	case "late":
-		w.rl.VerifSetHeavyQueueTimeout(lateT)
 	default:
 		w.rl.VerifSetHeavyQueueTimeout(time.Hour)
 	}
@@ -246,8 +294,8 @@ func (w *world) runCaller(p *proc, name string, cp callerPar, ctx context.Contex
 func (w *world) spawn(name string, cp callerPar) {
 	p := &proc{name: name, release: make(chan struct{}), parked: make(chan string, 1), pc: "new"}
 	w.procs[name] = p
-	ctx, cancel := context.WithCancel(context.Background())
-	w.cancel[name] = cancel
+	ctx := newManualCtx()
+	w.cctx[name] = ctx
 	ready := make(chan struct{})
 	go func() {
 		cur.mu.Lock()
@@ -308,9 +356,9 @@ func (w *world) project(r *rec) {
 var serial int
 
 func runBehaviour(bi int, b behaviour, out *hx.Out) bool {
-	w := &world{par: b.Par, procs: map[string]*proc{}, cancel: map[string]context.CancelFunc{}, canc: map[string]bool{},
+	w := &world{par: b.Par, procs: map[string]*proc{}, cctx: map[string]*manualCtx{}, canc: map[string]bool{},
 		exec: map[string]int{}, done: map[string]int{}, res: map[string]string{}, why: map[string]string{},
-		exret: map[string]int{}, first: map[string]string{}, t0: map[string]time.Time{}, t1: map[string]time.Time{}}
+		exret: map[string]int{}, first: map[string]string{}}
 	wp := &proc{name: "w", release: make(chan struct{}), parked: make(chan string, 1), pc: "new"}
 	w.procs["w"] = wp
 	cur = &sched{byGid: map[uint64]*proc{}, worker: wp}
@@ -338,26 +386,13 @@ func runBehaviour(bi int, b behaviour, out *hx.Out) bool {
 	out.Emit(r)
 	for _, n := range b.Sched {
 		r := rec{Ev: "step", Beh: bi, P: n}
-		// a "late" queue deadline that could fire before the schedule says so makes the replay meaningless
-		for _, c := range w.callers {
-			pcc := w.procs[c].pc
-			if b.Par.Cal[c].To == "late" && (pcc == "presend" || pcc == "waiting") && w.first[c] != "deadline" &&
-				time.Now().After(w.t0[c].Add(lateT-lateGuard)) {
-				r.Ev = "discard"
-			}
-		}
-		if r.Ev == "discard" {
-			w.project(&r)
-			out.Emit(r)
-			return false
-		}
 		if e, ok := b.Par.Ev[n]; ok {
 			if e.K == "cancel" {
-				w.cancel[e.C]()
-				w.canc[e.C] = true
+				w.cctx[e.C].fire(context.Canceled)
 			} else {
-				time.Sleep(time.Until(w.t1[e.C].Add(lateT + lateMargin)))
+				w.cctx[e.C].fire(context.DeadlineExceeded)
 			}
+			w.canc[e.C] = true
 			if w.first[e.C] == "none" {
 				w.first[e.C] = e.K
 			}
@@ -365,18 +400,12 @@ func runBehaviour(bi int, b behaviour, out *hx.Out) bool {
 			r.Ev = "skip"
 		} else {
 			from := p.pc
-			if from == "start" {
-				w.t0[n] = time.Now()
-			}
 			if !w.step(p) {
 				r.Ev = "blocked"
 				p.pc = "blocked"
 			}
-			if from == "start" {
-				w.t1[n] = time.Now()
-				if p.pc == "presend" && b.Par.Cal[n].To == "expired" && w.first[n] == "none" {
-					w.first[n] = "deadline"
-				}
+			if from == "start" && p.pc == "presend" && b.Par.Cal[n].To == "expired" && w.first[n] == "none" {
+				w.first[n] = "deadline"
 			}
 		}
 		w.project(&r)
@@ -385,8 +414,8 @@ func runBehaviour(bi int, b behaviour, out *hx.Out) bool {
 			return true
 		}
 	}
-	for _, c := range w.cancel {
-		c()
+	for _, c := range w.cctx {
+		c.fire(context.Canceled)
 	}
 	return false
 }
